@@ -99,7 +99,7 @@ Fixpoint select (text : str) (es : list medit) (idx : nat) (occ : list (nat * na
   | [] => []
   | e :: es' =>
     match find_match text (me_target e) (me_fuzzy e) with
-    | Some (s, en) => if overlaps occ s en then select text es' (S idx) occ
+    | Some (s, en) => if (s =? en) || overlaps occ s en then select text es' (S idx) occ   (* empty match: skipped (D23 repair) *)
                       else (s, en, e, idx) :: select text es' (S idx) (occ ++ [(s, en)])
     | None => select text es' (S idx) occ
     end
